@@ -1,10 +1,10 @@
 (* C39 - Decimal to float conversion is correctly rounded: statements for the code AS IT IS in the
    pinned tree. The full statements are false there (refutations below); the partial theorems hold
    on the stated guards. The full theorems for the repaired code are in Props/C39Fixed.v.
-   Statements only; proofs are in Proofs/DecFloat.v. *)
+   Statements only; proofs are in Proofs/DecFloat.v and Proofs/DecFloatRefuted.v. *)
 From Coq Require Import ZArith NArith List Bool Reals.
 From Flocq Require Import Core.Core IEEE754.BinarySingleNaN.
-From PV Require Import Model.DecFloatTables Model.DecFloat Proofs.DecFloat.
+From PV Require Import Model.DecFloatTables Model.DecFloat Proofs.DecFloat Proofs.DecFloatRefuted.
 Import ListNotations.
 
 (* "converting it to a 64-bit float gives the nearest representable value, ties to even" is FALSE
